@@ -44,6 +44,9 @@ type Step struct {
 func (s Step) String() string {
 	switch s.Op {
 	case "new":
+		if s.Parent == -2 {
+			return fmt.Sprintf("L%d=slog.Default()(ops=%v)", s.Logger, s.AsOpt)
+		}
 		return fmt.Sprintf("L%d=new(parent=%d,opts=%v)", s.Logger, s.Parent, s.AsOpt)
 	case "probe":
 		return fmt.Sprintf("L%d.probe(%d)", s.Logger, s.Level)
@@ -86,7 +89,10 @@ func registerCustom() {
 // depend on whether some destination fails (the reaction to failures itself is property C13).
 var failingWriter = -1
 
+var caseSerial int
+
 func interp(script []Step, skipUngiven bool) (obs []Obs) {
+	caseSerial++
 	given := map[int]bool{}
 	defer vlib.Canon()()
 	registerCustom()
@@ -110,6 +116,14 @@ func interp(script []Step, skipUngiven bool) (obs []Obs) {
 		return pool[i].(io.Writer)
 	}
 	loggers := map[int]slog.Logger{}
+	touchedDefault := false
+	defer func() {
+		if touchedDefault {
+			d := slog.Default()
+			d.ResetWriters() // standard devices again, no per-level writers
+			d.SetColorMode(true)
+		}
+	}()
 	apply := func(lg slog.Logger, s Step) {
 		switch s.Op {
 		case "SetWriter":
@@ -169,12 +183,23 @@ func interp(script []Step, skipUngiven bool) (obs []Obs) {
 			}()
 			switch s.Op {
 			case "new":
-				args := []any{fmt.Sprintf("lg%d", s.Logger), slog.WithLevel(slog.AlwaysLevel), slog.WithColorMode(false)}
+				// names are unique per case: the default logger keeps its children for the life of the process
+				args := []any{fmt.Sprintf("lg%d_%d", s.Logger, caseSerial), slog.WithLevel(slog.AlwaysLevel), slog.WithColorMode(false)}
 				for _, os := range s.AsOpt {
 					args = append(args, toOpt(os))
 					given[s.Logger] = true
 				}
-				if s.Parent < 0 {
+				if s.Parent == -2 {
+					// the package's default logger itself (its level is put back at the end of the case by Canon)
+					d := slog.Default()
+					d.SetLevel(slog.AlwaysLevel)
+					d.SetColorMode(false)
+					touchedDefault = true
+					for _, os := range s.AsOpt {
+						apply(d, os)
+					}
+					loggers[s.Logger] = d
+				} else if s.Parent < 0 {
 					loggers[s.Logger] = slog.New(args...)
 				} else {
 					loggers[s.Logger] = loggers[s.Parent].New(args...)
@@ -439,7 +464,9 @@ func genScript(t *rapid.T, maxLoggers, maxSteps int) []Step {
 	nLoggers := 0
 	newLogger := func() {
 		s := Step{Op: "new", Logger: nLoggers, Parent: -1}
-		if nLoggers > 0 && rapid.Bool().Draw(t, "child") {
+		if nLoggers == 0 && rapid.IntRange(0, 3).Draw(t, "useDefaultLogger") == 0 {
+			s.Parent = -2 // operate on the package's default logger: other loggers must not notice
+		} else if nLoggers > 0 && rapid.Bool().Draw(t, "child") {
 			s.Parent = rapid.IntRange(0, nLoggers-1).Draw(t, "parent")
 		}
 		m := newWset()
